@@ -73,6 +73,15 @@ def skip(args):
     return False
 
 
+def concrete(fn, *args):
+    """Run `fn(*args)` with tracing off.  Used by menu-bounded obligations *after* the solver has
+    decided every symbolic index: from then on no symbolic value flows into serif, so interpreting
+    the code under the tracer or running it natively gives the same result; natively it is ~20x
+    cheaper.  In a plain interpreter this is just a call."""
+    with NoTracing():
+        return fn(*args)
+
+
 def fail(why):
     with NoTracing():
         try:
